@@ -30,8 +30,9 @@ CHECKS = {
               "caller-received == handler-sent complete and in order, terminal receive is io.EOF iff the handler returned nil, repeated receives after the end never yield data. "
               "Non-trivial = envelopes of >=2 calls interleaved on one connection, or >=11 messages one way, or separate sender/receiver goroutines; distinct = canonical case JSON hash."
               " burst: 2..64 bidi streams opened in the same instant (optionally through a spin barrier at the verif hook point in front of the id allocation, groups of 2/4/8 callers leaving it within nanoseconds), 1..4 messages each, 1..3 rounds; every stream receives exactly the echoes of its own messages and io.EOF, every handler instance sees one caller's messages only. writefault: one body or half-close write of a client-streaming exchange fails while reads stay healthy (fault error value drawn from kit.FaultErrKinds): the Send reports the failure or the message arrives."
-              " Conversation cases may be preceded by 0..2 calls on an already cancelled context on every connection (they fail, and must leave the connection as good as new)."),
-        jobs=[dict(test="TestC02", quick=4800, thorough=40000), dict(test="TestC02Race", quick=200, thorough=2000, shards=4), dict(test="FuzzC02", kind="fuzz", quick=0, thorough=90), dict(test="TestC02Fault", quick=300, thorough=3000, shards=4), dict(test="TestC02Burst", quick=800, thorough=8000)],
+              " Conversation cases may be preceded by 0..2 calls on an already cancelled context on every connection (they fail, and must leave the connection as good as new)."
+              " late: 1..4 server streams get 0..2 responses (with or without the trailer) delivered, then the connection fails, and only then do the callers start receiving: a completely delivered response is returned exactly, an incomplete one ends in an error, nobody blocks."),
+        jobs=[dict(test="TestC02", quick=4800, thorough=40000), dict(test="TestC02Race", quick=200, thorough=2000, shards=4), dict(test="FuzzC02", kind="fuzz", quick=0, thorough=90), dict(test="TestC02Fault", quick=300, thorough=3000, shards=4), dict(test="TestC02Burst", quick=800, thorough=8000), dict(test="TestC02Late", quick=800, thorough=8000)],
         floors={"TestC02:interleaved=true": 0.2, "TestC02:concurrent=true": 0.1, "TestC02:msgs>=11": 0.05, "TestC02:kind=client": 0.1, "TestC02:kind=server": 0.1, "TestC02:kind=bidi": 0.2, "TestC02:arm_end=true": 0.1, "TestC02Burst:burst.spin_barrier=true": 0.4, "TestC02:dead_calls_before=true": 0.15},
         assumptions=COMMON_ASSUMPTIONS,
     ),
@@ -42,9 +43,10 @@ CHECKS = {
               "foreign: scripted peer instead of a goat server, 15 reply shapes (explicit OK status+body, status without trailer metadata, status+body, reset alone / without trailer / before / after the trailer, trailer without status...). "
               "race: the server's trailer Write is parked while the caller sends 1..4 more bodies, then released (reset vs trailer). "
               "Non-trivial = non-OK outcome with >=1 detail, or mid-stream failure position, or any foreign/race case; distinct = canonical case hash."
-              " Callers optionally use the API in unusual but legal orders: CloseSend twice; further receives after the end (which must report the same outcome again)."),
+              " Callers optionally use the API in unusual but legal orders: CloseSend twice; further receives after the end (which must report the same outcome again)."
+              " The scripted-peer sub-check reaches the peer directly, through a goat.Proxy, or as a logical connection of a goat.Demux."),
         jobs=[dict(test="TestC03", quick=4800, thorough=40000), dict(test="TestC03Foreign", quick=800, thorough=10000, shards=4), dict(test="TestC03Race", quick=400, thorough=5000, shards=4), dict(test="FuzzC03", kind="fuzz", quick=0, thorough=90)],
-        floors={"TestC03:pos=mid-stream": 0.03, "TestC03:intercept=true": 0.1, "TestC03:api_order=close-twice": 0.05},
+        floors={"TestC03:pos=mid-stream": 0.03, "TestC03:intercept=true": 0.1, "TestC03:api_order=close-twice": 0.05, "TestC03Foreign:foreign.via=proxy": 0.12, "TestC03Foreign:foreign.via=demux": 0.12},
         assumptions=COMMON_ASSUMPTIONS,
     ),
     "C04": dict(
@@ -95,8 +97,9 @@ CHECKS = {
               "(all positions; quick tier samples 7 positions when L>10). Oracle: every receive issued after the cancellation returns; what is received overall is a prefix of what the handler really sent; within unread+1 receives the result is the Canceled/DeadlineExceeded status and stays so; never io.EOF; "
               "a later send fails with the context's error; Header() returns; a reset for the id is on the tap; the handler's context is done at the next quiescent point and the handler has exited; bystanders complete exactly; the cancelled stream's wire projection conforms (C06). "
               "Non-trivial = trace length >=2, or >=1 unread response, or deadline; distinct = distinct scenario; counters.positions = number of (scenario, position) executions."
-              " In a quarter of the cases the caller's context carries a custom cancellation cause (WithCancelCause / WithTimeoutCause); the statuses demanded are those of ctx.Err()."),
-        jobs=[dict(test="TestC07", quick=1280, thorough=6000), dict(test="FuzzC07", kind="fuzz", quick=0, thorough=90)],
+              " In a quarter of the cases the caller's context carries a custom cancellation cause (WithCancelCause / WithTimeoutCause); the statuses demanded are those of ctx.Err()."
+              " during-open: the caller's context ends (cancel / deadline, with or without cause) while the opening envelope is inside a transport write that completes regardless; the handler that then starts must not keep a live context, the call returns the context's status, other streams are unaffected."),
+        jobs=[dict(test="TestC07", quick=1280, thorough=6000), dict(test="TestC07Open", quick=800, thorough=8000), dict(test="FuzzC07", kind="fuzz", quick=0, thorough=90)],
         floors={"TestC07:unread>=3": 0.08, "TestC07:deadline=true": 0.3, "TestC07:kind=bidi": 0.2, "TestC07:kind=server": 0.2, "TestC07:kind=client": 0.2, "TestC07:park_send=true": 0.05, "TestC07:cause=true": 0.1, "TestC07:stats=true": 0.15},
         assumptions=COMMON_ASSUMPTIONS + ["handlers that ignore >=2 queued requests and then wait are documented head-of-line blocking and generated under C11, not here"],
     ),
@@ -108,7 +111,7 @@ CHECKS = {
               "Non-trivial = >=2 unread bodies, >=3 unread responses, surplus envelopes, or >=1 bystander; distinct = distinct case."
               " In caller-cancel mode on bidi streams the abandonment may instead be a SendMsg that fails to encode its message, after which the caller walks away without cancelling."),
         jobs=[dict(test="TestC11Grid", kind="enum", quick=1, thorough=1, shards=1), dict(test="TestC11", quick=3200, thorough=20000), dict(test="FuzzC11", kind="fuzz", quick=0, thorough=90)],
-        floors={"TestC11:mode=handler-early": 0.15, "TestC11:mode=caller-cancel": 0.15, "TestC11:mode=client-extra": 0.12, "TestC11:mode=server-extra": 0.12, "TestC11:send_fail=true": 0.012},
+        floors={"TestC11:mode=handler-early": 0.15, "TestC11:mode=caller-cancel": 0.15, "TestC11:mode=client-extra": 0.12, "TestC11:mode=server-extra": 0.12, "TestC11:send_fail=true": 0.012, "TestC11:early_trailer=true": 0.03},
         assumptions=COMMON_ASSUMPTIONS + ["a caller that stops reading without cancelling is documented head-of-line blocking (the quantifier lists cancellation) and is not generated"],
     ),
     "C09": dict(
@@ -118,8 +121,9 @@ CHECKS = {
               "one more unary call and one more stream are started after the failure, and optionally a call is parked by the verif hook between the multiplexer's failure check and its registration until the failure has been recorded. "
               "Oracle: at the next quiescent point every call has returned; a call succeeds only if its complete response had been delivered, and then with exactly the scripted data; streams receive a prefix of the scripted bodies and never end in io.EOF before their trailer was delivered; Header() returns; calls started afterwards and the window call fail. "
               "Non-trivial = trace length >=2, or window armed, or write side still writable; counters.positions = (scenario, position) executions."
-              " The failing transport's error value is drawn from kit.FaultErrKinds (a private error, io.EOF, an error wrapping io.EOF, io.ErrUnexpectedEOF, io.ErrClosedPipe, net.ErrClosed, context.Canceled, os.ErrDeadlineExceeded): goat uses io.EOF as its own clean-end signal, so a transport reporting the peer's close that way must not read as success."),
-        jobs=[dict(test="TestC09", quick=960, thorough=6000), dict(test="TestC09Storm", quick=1600, thorough=40000), dict(test="FuzzC09", kind="fuzz", quick=0, thorough=90)],
+              " The failing transport's error value is drawn from kit.FaultErrKinds (a private error, io.EOF, an error wrapping io.EOF, io.ErrUnexpectedEOF, io.ErrClosedPipe, net.ErrClosed, context.Canceled, os.ErrDeadlineExceeded): goat uses io.EOF as its own clean-end signal, so a transport reporting the peer's close that way must not read as success."
+              " late: as C02's late sub-check (responses delivered before the failure, read after it)."),
+        jobs=[dict(test="TestC09", quick=960, thorough=6000), dict(test="TestC09Storm", quick=1600, thorough=40000), dict(test="TestC09Late", quick=1600, thorough=16000), dict(test="FuzzC09", kind="fuzz", quick=0, thorough=90)],
         floors={"TestC09:window=unary": 0.1, "TestC09:window=stream": 0.1, "TestC09:write_fails=false": 0.3, "TestC09:read_error=eof": 0.04, "TestC09:read_error=wrapped-eof": 0.04, "TestC09:stats=true": 0.15},
         assumptions=COMMON_ASSUMPTIONS + ["the check-then-register window is reached through the verif-tagged yield points mux.unary.beforeRegister / mux.stream.beforeRegister"],
     ),
@@ -130,7 +134,8 @@ CHECKS = {
               "Oracle at the quiescent point after the ending: Serve has returned - but not while a context-ignoring streaming handler is still running; every streaming handler has finished; the context of every in-flight handler, unary included, is done; "
               "after the context-ignoring unary handlers have been released and returned, the synctest bubble ends with no goroutine left. Non-trivial = >=1 unary and >=1 stream in flight, or a handler parked in send."
               " Stream kind sdl carries a 30 ms grpc-timeout and 50 ms of virtual time may pass before the ending, so that handlers that returned DeadlineExceeded have their trailers in flight when the connection ends."
-              " 0..12 unary requests: with more than eight (goat's unary workers per connection) only Stop is used as the ending."),
+              " 0..12 unary requests: with more than eight (goat's unary workers per connection) only Stop is used as the ending."
+              " Ending resetfail: the response write that fails is that of a reset (answer to a body for an unknown stream)."),
         jobs=[dict(test="TestC10", quick=4800, thorough=30000), dict(test="FuzzC10", kind="fuzz", quick=0, thorough=90)],
         floors={"TestC10:ending=readfail": 0.15, "TestC10:ending=writefail": 0.15, "TestC10:ending=stop": 0.15, "TestC10:parked-in-send": 0.1, "TestC10:orphan=true": 0.2},
         assumptions=COMMON_ASSUMPTIONS + ["cancelling the context passed to Serve is not among the endings the property lists and is not generated"],
@@ -141,7 +146,8 @@ CHECKS = {
               "(a) bounded-exhaustive: every sequence of length<=2 (2970) plus a seeded 1/40 sample of length 3 in the quick tier; every sequence of length<=3 (160434) plus a 1/20 sample of length 4 in the thorough tier; (b) rapid sequences of length 1..40; each sequence is followed by a valid probe request on a fresh id, the bubble settles after every envelope. "
               "Oracle (invariants, not an exact model): process alive, Serve still running, probe answered exactly; unary handler runs == well-formed unary requests (requests without a body may or may not run it), every run answered exactly once with a well-formed swapped-address response, refusals only for undecodable requests; "
               "stream handler starts <= well-formed opens and >=1 if any; a body for a never-opened id is answered by a reset for that id; resets only with such a trigger; no envelope for an id never received. Non-trivial = sequence mixes malformed and well-formed envelopes or touches an id twice."
-              " Configurations rotate / are drawn: server stats handler; unary handlers that call SetHeader, SendHeader twice, SetHeader and SetTrailer."),
+              " Configurations rotate / are drawn: server stats handler; unary handlers that call SetHeader, SendHeader twice, SetHeader and SetTrailer."
+              " 0..3 well-formed unary requests are sent first to a handler that returns only after the final shutdown (a handler outliving its connection must not crash the process)."),
         jobs=[dict(test="TestC12Enum", kind="enum", quick=1, thorough=1), dict(test="TestC12", quick=3200, thorough=40000), dict(test="FuzzC12", kind="fuzz", quick=0, thorough=150), dict(test="TestC12Reuse", quick=300, thorough=3000, shards=4)],
         assumptions=COMMON_ASSUMPTIONS,
         exhaustive_all=False,
@@ -166,9 +172,10 @@ CHECKS = {
               "Non-trivial = an interleaving with >=1 switch between calls, or a burst of >=8 concurrent starts; distinct = distinct (side, shape, interleaving)."
               " Payloads are 4-byte tokens or padded to 1100..20000 bytes with a per-call fill. ids: bursts optionally leave the id-allocation point through the spin barrier, and optionally keep all eight unary workers busy for 20 ms of virtual time while the rest of the burst arrives."
               " Bursts are spread over 1..3 connections of one Server object."
-              " leftover: 2..6 streams follow one another on one connection, each handler reads only a prefix of what its caller sends and returns; every handler receives a prefix of its own caller's messages and nothing a predecessor left unread."),
+              " leftover: 2..6 streams follow one another on one connection, each handler reads only a prefix of what its caller sends and returns; every handler receives a prefix of its own caller's messages and nothing a predecessor left unread."
+              " order: one response write of a server stream fails once with a drawn error kind (some look transient), the stream stays open for 100 ms of virtual time: what a caller receives is its own stream's messages in order, none twice, and io.EOF only with all of them."),
         jobs=[dict(test="TestC05Enum", kind="enum", quick=1, thorough=1), dict(test="TestC05", quick=3200, thorough=20000), dict(test="TestC05IDs", quick=1280, thorough=8000),
-              dict(test="TestC05History", kind="enum", quick=1, thorough=1, shards=1), dict(test="TestC05Reuse", quick=200, thorough=2000, shards=4), dict(test="TestC05Left", quick=1600, thorough=16000)],
+              dict(test="TestC05History", kind="enum", quick=1, thorough=1, shards=1), dict(test="TestC05Reuse", quick=200, thorough=2000, shards=4), dict(test="TestC05Left", quick=1600, thorough=16000), dict(test="TestC05Order", quick=1600, thorough=16000)],
         floors={"TestC05:side=client": 0.25, "TestC05:side=server": 0.25, "TestC05:pooled_payloads=true": 0.3, "TestC05IDs:slow_handlers=true": 0.3, "TestC05IDs:spin_barrier=true": 0.4},
         assumptions=COMMON_ASSUMPTIONS,
     ),
@@ -179,8 +186,9 @@ CHECKS = {
               "Invariant at every quiescent point: goat.VerifClientCalls(cc)==0, goat.VerifServerStreams()==0 (verif-tagged registry accessors) and the multiset of creation sites of the bubble's live goroutines equals the idle set recorded right after connection start. "
               "Non-trivial = history with >=3 different outcomes and a round of >=8 RPCs; counters.rpcs = RPCs executed."
               " Outcome cancel-send: the cancellation lands while one SendMsg of the call is parked inside the transport write. Fault error values drawn from kit.FaultErrKinds."
-              " Outcomes pre-cancelled / pre-expired / nearly-expired: calls started on a context that has ended or is about to."),
-        jobs=[dict(test="TestC14", quick=1600, thorough=48000), dict(test="FuzzC14", kind="fuzz", quick=0, thorough=90)],
+              " Outcomes pre-cancelled / pre-expired / nearly-expired: calls started on a context that has ended or is about to."
+              " restart: demux topology, 1..4 bidi streams running, the server's end of the client's connection is cancelled and re-created; the streams are answered with resets by the new instance, must end on the client, and nothing stays registered on either side; unary calls afterwards work."),
+        jobs=[dict(test="TestC14", quick=1600, thorough=48000), dict(test="TestC14Restart", quick=480, thorough=4800), dict(test="FuzzC14", kind="fuzz", quick=0, thorough=90)],
         floors={"TestC14:outcome=openfail": 0.2, "TestC14:outcome=cancel": 0.25, "TestC14:outcome=cancel-unread": 0.12, "TestC14:outcome=deadline": 0.25, "TestC14:outcome=reset": 0.2, "TestC14:outcome=cancel-send": 0.1, "TestC14:outcome=pre-expired": 0.1, "TestC14:outcome=nearly-expired": 0.05},
         assumptions=COMMON_ASSUMPTIONS + ["registry sizes are read through the verif-tagged accessors VerifClientCalls / VerifServerStreams"],
     ),
@@ -192,7 +200,8 @@ CHECKS = {
               "per stats handler and RPC tag: Begin first, exactly one Begin and one End, End.Error==nil iff the RPC succeeded on that side, no event without the tag, TagRPC once per RPC (server side may see none for an RPC that never reached it); exactly one ConnBegin and ConnEnd per connection per handler. "
               "Non-trivial = chain length >=3, or a non-ok outcome, or >=2 stats handlers on a side."
               " Further drawn dimensions: handler errors that are or wrap io.EOF (the caller must see a failure and End.Error must be non-nil), transport failures with the error values of kit.FaultErrKinds, and for unary ok calls a cancellation issued from inside a client stats handler at the reply's InPayload event (the call succeeds, so End.Error must be nil)."
-              " One Server serves two unary and two stream methods; each RPC of a case calls one of them (drawn); server interceptors record the FullMethod they are told, which must be the called one."),
+              " One Server serves two unary and two stream methods; each RPC of a case calls one of them (drawn); server interceptors record the FullMethod they are told, which must be the called one."
+              " For unary ok/herr RPCs the Serve context may have been cancelled beforehand (goat keeps serving; every interceptor and stats handler must still see every RPC)."),
         jobs=[dict(test="TestC20", quick=4800, thorough=30000), dict(test="FuzzC20", kind="fuzz", quick=0, thorough=90), dict(test="TestC20Overlap", quick=400, thorough=4000, shards=4)],
         floors={"TestC20:outcome=cancel": 0.08, "TestC20:outcome=transport": 0.06, "TestC20:outcome=openfail": 0.05, "TestC20:chain=6": 0.08, "TestC20:single=true": 0.03, "TestC20:unread=true": 0.02, "TestC20:late_cancel=true": 0.02, "TestC20:handler_error=eof": 0.02, "TestC20:transport_error=eof": 0.004},
         assumptions=COMMON_ASSUMPTIONS + ["a caller's cancellation of a unary call is not conveyed to the server by goat (no reset for unary calls); the harness releases such handlers itself"],
@@ -229,7 +238,8 @@ CHECKS = {
               "write an envelope on k's logical connection, Cancel(k), Stop()}, the bubble settled after every operation; reference model model.Demux simulates the run loop (FIFO of fed envelopes, lookup/creation of the key's current life, hand-off blocked by a paused reader, drop of the parked envelope on Cancel, new life on next use). "
               "Oracle: every logical connection received exactly the envelopes the model hands to that life, in order; announcements == key lives; envelopes written on logical connections appear unchanged and in order on the shared transport; writes on a cancelled connection fail without blocking; readers of cancelled connections have returned with an error; Run has returned after Stop; no panic. "
               "rpc: the C01/C02 generators from 2..4 logical clients through one shared transport into one Server via Demux keyed by source, same oracles. Non-trivial = >=2 keys, a Cancel or a Stop."
-              " storm: a feeder goroutine writes 1..4 envelopes for each of 2..24 keys without pausing while a second goroutine cancels a drawn subset of the keys; never-cancelled keys are announced once and receive everything in order, cancelled keys never see duplicates, reordering or foreign envelopes. writefault: one write on the shared transport fails (drawn error value); later arrivals for the key are still delivered, other keys are undisturbed, Cancel still works."),
+              " storm: a feeder goroutine writes 1..4 envelopes for each of 2..24 keys without pausing while a second goroutine cancels a drawn subset of the keys; never-cancelled keys are announced once and receive everything in order, cancelled keys never see duplicates, reordering or foreign envelopes. writefault: one write on the shared transport fails (drawn error value); later arrivals for the key are still delivered, other keys are undisturbed, Cancel still works."
+              " Envelopes in the model-based histories carry status / trailer / reset / header metadata as a function of their id and are compared with proto.Equal in both directions."),
         jobs=[dict(test="TestC18", quick=6400, thorough=80000), dict(test="TestC18RPC", quick=320, thorough=8000), dict(test="TestC18Parked", quick=300, thorough=3000, shards=4), dict(test="TestC18Storm", quick=1600, thorough=16000), dict(test="TestC18WriteFault", quick=640, thorough=6400), dict(test="FuzzC18", kind="fuzz", quick=0, thorough=90)],
         floors={"TestC18:cancel=true": 0.3, "TestC18:stop=true": 0.03, "TestC18:cancel_while_parked=true": 0.03, "TestC18Storm:storm.cancels=true": 0.5, "TestC18Storm:storm.write_faults=true": 0.1},
         assumptions=COMMON_ASSUMPTIONS,
@@ -242,10 +252,11 @@ CHECKS = {
               "ctx: a parked Read or Write on each transport returns with an error once its context is cancelled or its deadline passes (virtual clock for channel and HTTP read; real time with 3s grace for sockets). "
               "idle: ServeHTTP driven directly with a recorder and a fake clockwork clock: 0..3 deliveries parked without a reader or a reader parked, the cleaner tick placed so that the connection's age is timeout-2s..timeout+2s, 1..3 ticks; oracle: no panic in ServeHTTP, readers of an expired connection fail. "
               "Non-trivial = >=2 envelopes or a body >32KiB (roundtrip); every raw/ctx/idle case."
-              " concurrent-writers: 2..8 goroutines write 1..3 envelopes each on one connection of each transport at the same time (goat's own callers do); every envelope is read exactly once, unchanged, and each writer's envelopes stay in that writer's order."),
+              " concurrent-writers: 2..8 goroutines write 1..3 envelopes each on one connection of each transport at the same time (goat's own callers do); every envelope is read exactly once, unchanged, and each writer's envelopes stay in that writer's order."
+              " concurrent-writers over HTTP also counts the logical connections announced for the single source: more than one is a violation."),
         jobs=[dict(test="TestC19RoundTrip", quick=480, thorough=8000), dict(test="TestC19Raw", quick=800, thorough=20000), dict(test="TestC19Ctx", quick=48, thorough=400, shards=8),
               dict(test="TestC19Idle", quick=400, thorough=6000, shards=8), dict(test="TestC19Conc", quick=320, thorough=4000), dict(test="FuzzC19Decode", kind="fuzz", quick=0, thorough=120)],
-        floors={"TestC19RoundTrip:rt.websocket": 0.25, "TestC19RoundTrip:rt.http": 0.2, "TestC19RoundTrip:rt.channel": 0.1, "TestC19Conc:conc.http": 0.25, "TestC19Idle:idle.fresh=true": 0.15},
+        floors={"TestC19RoundTrip:rt.websocket": 0.25, "TestC19RoundTrip:rt.http": 0.2, "TestC19RoundTrip:rt.channel": 0.1, "TestC19Conc:conc.http": 0.25, "TestC19Idle:idle.fresh=true": 0.15, "TestC09Late:late.some_complete=true": 0.4},
         assumptions=COMMON_ASSUMPTIONS + ["WebSocket and HTTP sub-checks use real loopback sockets and wall-clock budgets; exceeding a budget is reported as inconclusive (exit 2), never as a violation"],
         timeout_quick=600,
     ),
@@ -253,7 +264,8 @@ CHECKS = {
         level="exploration",
         rule=("the harness is compiled with -race and the generated workloads of the other properties (C01 unary bursts, C02 streams with separate sender and receiver goroutines and Header() concurrent with sends, C03, C04, C07 cancellations, C09 transport failures, C10 connection endings incl. Stop concurrent with traffic, "
               "C11 abandonments, C16 proxy envelopes and RPCs, C17, C18 demux model and RPCs, C20 interceptors/stats) are executed at GOMAXPROCS 1, 2, 4 and 16 (go test -cpu) with a callback at every verif hook point that yields the processor according to a drawn tape. "
-              "The only oracle is the race detector (GORACE=halt_on_error=1): a report with at least one goat frame is a violation, a report without one is a harness bug (exit 2). Non-trivial = a workload with >=2 user goroutines on one connection; distinct = (family, case)."),
+              "The only oracle is the race detector (GORACE=halt_on_error=1): a report with at least one goat frame is a violation, a report without one is a harness bug (exit 2). Non-trivial = a workload with >=2 user goroutines on one connection; distinct = (family, case)."
+              " Family sendstorm: 1..8 streams and 0..4 unary loops keep sending while the write side and the read side of the connection fail in the same instant."),
         jobs=[dict(test="TestC15", race=True, cpu="1,2,4,16", quick=960, thorough=24000)],
         floors={"TestC15:family=c02": 0.05, "TestC15:family=c10": 0.02, "TestC15:family=c18": 0.02, "TestC15:gomaxprocs=16": 0.15, "TestC15:gomaxprocs=1": 0.15, "TestC15:family=c18storm": 0.02},
         assumptions=COMMON_ASSUMPTIONS + ["the race detector only sees the interleavings that were executed: this is search, not proof"],
